@@ -262,6 +262,13 @@ func (c *Ctx) solveOne(i int, o *Obligation, opts solveOpts) {
 		o.Result, o.Solver = "unsat", "trivial"
 		return
 	}
+	if o.Goal == "false" && o.Path == nil && !o.ExpectSat {
+		// an obligation that is false by construction (an unreached ghost anchor, a clause that cannot be bound to
+		// the code): nothing to ask a solver
+		o.Result, o.Solver = "unknown", "unprovable by construction"
+		o.Output = "the obligation is `false` without hypotheses: it records a mismatch between contract and code"
+		return
+	}
 	if !opts.deadline.IsZero() && time.Now().After(opts.deadline) {
 		// the budget of the whole check is used up (on the unchanged tree the solving phase takes a few minutes): the
 		// query is reported as not discharged instead of letting a changed tree keep the check running for hours
@@ -354,9 +361,16 @@ func (c *Ctx) solveOne(i int, o *Obligation, opts solveOpts) {
 			}
 			ch := make(chan ans, len(solvers))
 			ctx, cancel := context.WithCancel(context.Background())
+			// (thorough tier, `all`: a query the first solver has already decided is cross-checked by the others with
+			// a short budget - they agree or say nothing; a disagreement is reported as an error. The full budget is
+			// for queries that are still open.)
+			raceSecs := opts.secs
+			if res == "unsat" || res == "sat" {
+				raceSecs = 4
+			}
 			for _, sc := range solvers {
 				go func(sc solverCfg) {
-					r, o2, m := runSolverCtx(ctx, sc, file, opts.secs)
+					r, o2, m := runSolverCtx(ctx, sc, file, raceSecs)
 					ch <- ans{sc.name, r, o2, m}
 				}(sc)
 			}
